@@ -75,7 +75,9 @@ class LowerRoll(Contract):
 
     def canaries(self, tier):
         return [(dict(label="rank=2,axis=1", rank=2, axis=1), "wrong-sign",
-                 "lower.roll.value")]
+                 "lower.roll.value"),
+                (dict(label="rank=2,axis=1", rank=2, axis=1), "tight-bounds",
+                 "lower.roll.in-bounds", ("C11",))]
 
     def run(self, h, inst):
         r, ax = inst["rank"], inst["axis"]
@@ -123,3 +125,988 @@ import pytato as pt
 from pyvc.replaylib import M_from, mint, rnd, compare
 M = M_from(MODEL)
 """
+
+
+def same_shape_operands(h, k, rank, *, except_axis=None):
+    """k placeholders a0..a{k-1} with equal symbolic shapes (the constructor's
+    precondition); along *except_axis* lengths are independent."""
+    common = [h.nonneg(f"n{d}") for d in range(rank)]
+    ops = []
+    for j in range(k):
+        shp = list(common)
+        if except_axis is not None:
+            shp[except_axis] = h.nonneg(f"a{j}_len")
+        ops.append(mk_placeholder(h, f"a{j}", shape=shp))
+    return ops
+
+
+@contract
+class LowerStack(Contract):
+    name = "lower.stack"
+    functions = (f"{LOWER}:ToIndexLambdaMixin.map_stack", "pytato.array:stack",
+                 "pytato.array:Stack.shape")
+    properties = ("C02", "C11", "C01")
+
+    def instances(self, tier):
+        out = []
+        for r in ranks(tier, 0):
+            for k in (1, 2, 3):
+                for ax in range(r + 1):
+                    out.append(dict(label=f"rank={r},k={k},axis={ax}",
+                                    rank=r, k=k, axis=ax))
+        return out
+
+    def canaries(self, tier):
+        return [(dict(label="rank=1,k=3,axis=1", rank=1, k=3, axis=1),
+                 "swap-operands", "lower.stack.value"),
+                (dict(label="rank=1,k=3,axis=1", rank=1, k=3, axis=1), "tight-bounds",
+                 "lower.stack.in-bounds", ("C11",))]
+
+    def run(self, h, inst):
+        r, k, ax = inst["rank"], inst["k"], inst["axis"]
+        ops = same_shape_operands(h, k, r)
+        node = h.call(pt.stack, ops, ax)
+        if not isinstance(node, Stack):
+            return
+        node = decorate(node)
+        arrays = ArrayModel()
+        il = lower(h, node, "lower.stack")
+        if il is None:
+            return
+        order = list(range(k))
+        if h.canary == "swap-operands":
+            order[0], order[-1] = order[-1], order[0]
+
+        def spec(iv):
+            rest = [iv[d] for d in range(r + 1) if d != ax]
+            t = A(arrays, ops[order[k - 1]], rest)
+            for j in range(k - 2, -1, -1):
+                t = z3.If(iv[ax] == j, A(arrays, ops[order[j]], rest), t)
+            return t
+
+        check_index_lambda(h, il, node, spec, arrays,
+                           clause_prefix="lower.stack")
+
+    def replay(self, inst, clause, model, info):
+        return REPLAY_HEADER + f"""
+r, k, ax = {inst['rank']}, {inst['k']}, {inst['axis']}
+shape = tuple(max(0, mint(M, f"n{{d}}", 2)) for d in range(r))
+ops = [pt.make_placeholder(f"a{{j}}", shape, np.float64) for j in range(k)]
+data = {{f"a{{j}}": rnd(shape, seed=j) + 100 * j for j in range(k)}}
+node = pt.stack(ops, ax)
+expect = np.stack([data[f"a{{j}}"] for j in range(k)], ax)
+compare(node, data, expect)
+"""
+
+
+@contract
+class LowerConcatenate(Contract):
+    name = "lower.concatenate"
+    functions = (f"{LOWER}:ToIndexLambdaMixin.map_concatenate",
+                 "pytato.array:concatenate", "pytato.array:Concatenate.shape")
+    properties = ("C02", "C11", "C01")
+
+    def instances(self, tier):
+        out = []
+        for r in ranks(tier, 1):
+            for k in (1, 2, 3):
+                for ax in range(r):
+                    out.append(dict(label=f"rank={r},k={k},axis={ax}",
+                                    rank=r, k=k, axis=ax))
+        return out
+
+    def canaries(self, tier):
+        return [(dict(label="rank=1,k=2,axis=0", rank=1, k=2, axis=0),
+                 "le-instead-of-lt", "lower.concatenate.value"),
+                (dict(label="rank=1,k=2,axis=0", rank=1, k=2, axis=0), "tight-bounds",
+                 "lower.concatenate.in-bounds", ("C11",))]
+
+    def run(self, h, inst):
+        r, k, ax = inst["rank"], inst["k"], inst["axis"]
+        ops = same_shape_operands(h, k, r, except_axis=ax)
+        node = h.call(pt.concatenate, ops, ax)
+        if not isinstance(node, Concatenate):
+            return
+        node = decorate(node)
+        arrays = ArrayModel()
+        il = lower(h, node, "lower.concatenate")
+        if il is None:
+            return
+        lens = [shape_term(o.shape[ax]) for o in ops]
+
+        def spec(iv):
+            offs = [z3.IntVal(0)]
+            for ln in lens:
+                offs.append(offs[-1] + ln)
+
+            def piece(j):
+                idx = [iv[d] - offs[j] if d == ax else iv[d]
+                       for d in range(r)]
+                return A(arrays, ops[j], idx)
+            t = piece(k - 1)
+            for j in range(k - 2, -1, -1):
+                c = (iv[ax] <= offs[j + 1]) if h.canary == "le-instead-of-lt" \
+                    else (iv[ax] < offs[j + 1])
+                t = z3.If(c, piece(j), t)
+            return t
+
+        spec_shape = [z3.Sum(lens) if d == ax else shape_term(ops[0].shape[d])
+                      for d in range(r)]
+        check_index_lambda(h, il, node, spec, arrays,
+                           clause_prefix="lower.concatenate",
+                           spec_shape=spec_shape)
+
+    def replay(self, inst, clause, model, info):
+        return REPLAY_HEADER + f"""
+r, k, ax = {inst['rank']}, {inst['k']}, {inst['axis']}
+common = [max(0, mint(M, f"n{{d}}", 2)) for d in range(r)]
+ops, data = [], {{}}
+for j in range(k):
+    shp = list(common); shp[ax] = max(0, mint(M, f"a{{j}}_len", 2))
+    ops.append(pt.make_placeholder(f"a{{j}}", tuple(shp), np.float64))
+    data[f"a{{j}}"] = rnd(tuple(shp), seed=j) + 100 * j
+node = pt.concatenate(ops, ax)
+expect = np.concatenate([data[f"a{{j}}"] for j in range(k)], ax)
+compare(node, data, expect)
+"""
+
+
+@contract
+class LowerAxisPermutation(Contract):
+    name = "lower.axis_permutation"
+    functions = (f"{LOWER}:ToIndexLambdaMixin.map_axis_permutation",
+                 "pytato.array:transpose", "pytato.array:AxisPermutation.shape")
+    properties = ("C02", "C11", "C01")
+
+    def instances(self, tier):
+        out = []
+        for r in ranks(tier, 0):
+            for perm in itertools.permutations(range(r)):
+                out.append(dict(label=f"perm={list(perm)}", perm=list(perm)))
+        return out
+
+    def canaries(self, tier):
+        return [(dict(label="perm=[1, 2, 0]", perm=[1, 2, 0]),
+                 "inverse-permutation", "lower.axis_permutation.value"),
+                (dict(label="perm=[1, 2, 0]", perm=[1, 2, 0]), "tight-bounds",
+                 "lower.axis_permutation.in-bounds", ("C11",))]
+
+    def run(self, h, inst):
+        perm = inst["perm"]
+        r = len(perm)
+        a = mk_placeholder(h, "a", r)
+        node = h.call(pt.transpose, a, perm)
+        if not isinstance(node, AxisPermutation):
+            return
+        node = decorate(node)
+        arrays = ArrayModel()
+        il = lower(h, node, "lower.axis_permutation")
+        if il is None:
+            return
+
+        def spec(iv):
+            # numpy: result axis d is input axis perm[d]
+            j = [None] * r
+            for d in range(r):
+                if h.canary == "inverse-permutation":
+                    j[d] = iv[perm[d]]
+                else:
+                    j[perm[d]] = iv[d]
+            return A(arrays, a, j)
+
+        spec_shape = [shape_term(a.shape[perm[d]]) for d in range(r)]
+        check_index_lambda(h, il, node, spec, arrays,
+                           clause_prefix="lower.axis_permutation",
+                           spec_shape=spec_shape)
+
+    def replay(self, inst, clause, model, info):
+        return REPLAY_HEADER + f"""
+perm = {inst['perm']!r}
+shape = tuple(max(0, mint(M, f"a_n{{d}}", d + 2)) for d in range(len(perm)))
+a = pt.make_placeholder("a", shape, np.float64)
+data = {{"a": rnd(shape)}}
+node = pt.transpose(a, perm)
+compare(node, data, np.transpose(data["a"], perm))
+"""
+
+
+# {{{ indexing
+
+from contracts.slices import (_sym_slice, cpy_slice,  # noqa: E402
+                              install_slice_contracts, zt)
+
+SLICE_PATS_QUICK = ["111", "000", "101", "011"]
+SLICE_PATS_ALL = ["".join(map(str, p)) for p in
+                  itertools.product((0, 1), repeat=3)]
+
+
+def basic_kinds(tier):
+    pats = SLICE_PATS_ALL if tier == "thorough" else SLICE_PATS_QUICK
+    return ["int", *[f"s{p}" for p in pats]]
+
+
+def build_index(h, kinds):
+    """Symbolic index tuple + per-axis description."""
+    idx, descr = [], []
+    for d, kd in enumerate(kinds):
+        if kd == "int":
+            k = h.int(f"k{d}")
+            idx.append(k)
+            descr.append(("int", k))
+        elif kd.startswith("s"):
+            pat = [int(c) for c in kd[1:]]
+            start, stop, step = _sym_slice(h, pat, prefix=f"s{d}")
+            idx.append(slice(start, stop, step))
+            descr.append(("slice", (start, stop, step)))
+        else:
+            raise ValueError(kd)
+    return tuple(idx), descr
+
+
+def axis_spec(descr_d, n):
+    """('int', j) or ('slice', s0, st, L): NumPy's meaning on an axis of
+    length n (z3 term)."""
+    if descr_d[0] == "int":
+        k = z_of(descr_d[1])
+        return ("int", k + z3.If(k < 0, n, z3.IntVal(0)))
+    start, stop, step = descr_d[1]
+    s0, _s1, st, L = cpy_slice(n, zt(start), zt(stop), zt(step))
+    return ("slice", s0, st, L)
+
+
+@contract
+class LowerBasicIndex(Contract):
+    name = "lower.basic_index"
+    functions = (f"{LOWER}:ToIndexLambdaMixin.map_basic_index",
+                 f"{LOWER}:ToIndexLambdaMixin.rec_idx_tuple",
+                 "pytato.array:Array.__getitem__", "pytato.utils:_index_into",
+                 "pytato.array:BasicIndex.shape",
+                 "pytato.utils:normalized_slice_does_not_change_axis",
+                 "pytato.utils:get_shape_after_broadcasting")
+    properties = ("C02", "C11", "C01", "C03")
+    notes = ("_normalize_slice/_normalized_slice_len used through their "
+             "contracts (modular)",)
+
+    def instances(self, tier):
+        out = []
+        kinds = basic_kinds(tier)
+        for r in (1, 2):
+            for combo in itertools.product(kinds, repeat=r):
+                out.append(dict(label="idx=" + "/".join(combo),
+                                kinds=list(combo)))
+        if tier == "thorough":
+            for combo in itertools.product(["int", "s111", "s000"], repeat=3):
+                out.append(dict(label="idx=" + "/".join(combo),
+                                kinds=list(combo)))
+        # fewer indices than axes (implicit trailing full slices), ellipsis
+        out.append(dict(label="idx=int,rank=2", kinds=["int"], rank=2))
+        out.append(dict(label="idx=s111,rank=3", kinds=["s111"], rank=3))
+        out.append(dict(label="idx=.../int,rank=2", kinds=["int"], rank=2,
+                        ellipsis="front"))
+        out.append(dict(label="idx=s111/...,rank=3", kinds=["s111"], rank=3,
+                        ellipsis="back"))
+        return out
+
+    def canaries(self, tier):
+        return [(dict(label="idx=int/s111", kinds=["int", "s111"]),
+                 "no-negative-wrap", "lower.basic_index.value"),
+                (dict(label="idx=int/s111", kinds=["int", "s111"]), "tight-bounds",
+                 "lower.basic_index.in-bounds", ("C11",))]
+
+    def run(self, h, inst):
+        kinds = inst["kinds"]
+        r = inst.get("rank", len(kinds))
+        install_slice_contracts(h)
+        a = mk_placeholder(h, "a", r)
+        idx, descr = build_index(h, kinds)
+        full_descr = list(descr)
+        ell = inst.get("ellipsis")
+        nfill = r - len(kinds)
+        fill = [("slice", (None, None, None))] * nfill
+        if ell == "front":
+            idx = (..., *idx)
+            full_descr = fill + full_descr
+        elif ell == "back":
+            idx = (*idx, ...)
+            full_descr = full_descr + fill
+        else:
+            full_descr = full_descr + fill
+        try:
+            node = h.interp.subscript(a, idx)
+        except EngineSignal:
+            raise
+        except (IndexError, ValueError):
+            return      # rejection is C03's business (contracts/c03_shapes)
+        except Exception as e:  # noqa: BLE001
+            h.fail("lower.basic_index.constructor-exception",
+                   f"{type(e).__name__}: {e}", props=("C03",))
+            return
+        if not isinstance(node, BasicIndex):
+            h.fail("lower.basic_index.kind", type(node).__name__)
+            return
+        node = decorate(node)
+        arrays = ArrayModel()
+        ns = [shape_term(x) for x in a.shape]
+        specs = [axis_spec(full_descr[p], ns[p]) for p in range(r)]
+        # accepted => NumPy accepts (int indices within [-n, n))
+        for p, dsc in enumerate(full_descr):
+            if dsc[0] == "int":
+                k = z_of(dsc[1])
+                h.oblige(f"lower.basic_index.accepted-int-in-range[{p}]",
+                         z3.And(k >= -ns[p], k < ns[p]), props=("C03", "C02"))
+        il = lower(h, node, "lower.basic_index")
+        if il is None:
+            return
+        wrap = h.canary != "no-negative-wrap"
+
+        def spec(iv):
+            j, o = [], 0
+            for p in range(r):
+                sp = specs[p]
+                if sp[0] == "int":
+                    j.append(sp[1] if wrap else z_of(full_descr[p][1]))
+                else:
+                    j.append(sp[1] + sp[2] * iv[o])
+                    o += 1
+            return A(arrays, a, j)
+
+        spec_shape = [sp[3] for sp in specs if sp[0] == "slice"]
+        check_index_lambda(h, il, node, spec, arrays,
+                           clause_prefix="lower.basic_index",
+                           spec_shape=spec_shape)
+
+    def replay(self, inst, clause, model, info):
+        return REPLAY_HEADER + f"""
+from pyvc.replaylib import reproduced
+kinds = {inst['kinds']!r}
+r = {inst.get('rank', len(inst['kinds']))}
+ell = {inst.get('ellipsis')!r}
+shape = tuple(max(0, mint(M, f"a_n{{d}}", 3)) for d in range(r))
+idx = []
+for d, kd in enumerate(kinds):
+    if kd == "int":
+        idx.append(mint(M, f"k{{d}}", 0))
+    else:
+        pat = [int(c) for c in kd[1:]]
+        idx.append(slice(mint(M, f"s{{d}}_start", 0) if pat[0] else None,
+                         mint(M, f"s{{d}}_stop", 0) if pat[1] else None,
+                         mint(M, f"s{{d}}_step", 1) if pat[2] else None))
+if ell == "front": idx = [Ellipsis, *idx]
+if ell == "back": idx = [*idx, Ellipsis]
+idx = tuple(idx)
+a = pt.make_placeholder("a", shape, np.float64)
+data = {{"a": rnd(shape)}}
+try:
+    expect = data["a"][idx]
+except (IndexError, ValueError) as e:
+    expect = e
+try:
+    node = a[idx]
+except (IndexError, ValueError) as e:
+    node = e
+if isinstance(expect, Exception):
+    if not isinstance(node, Exception):
+        reproduced(f"numpy rejects a{{list(shape)}}[{{idx}}] ({{expect}}), pytato accepts")
+    print("not reproduced: both reject"); sys.exit(0)
+if isinstance(node, Exception):
+    print("not reproduced: pytato over-rejects (allowed)", node); sys.exit(0)
+compare(node, data, expect)
+"""
+
+# }}}
+
+
+# {{{ advanced indexing
+
+def adv_patterns(n_arrays, tier):
+    """Right-aligned shape patterns of the index arrays: list of tuples of
+    'B' (shares the broadcast length of that position) / '1'."""
+    one = [(), ("B",), ("B", "B")]
+    if n_arrays == 1:
+        return [[p] for p in one]
+    if n_arrays == 2:
+        out = [[("B",), ("B",)], [("B",), ("1",)], [("1",), ("B",)],
+               [("B", "B"), ("B",)], [("B", "1"), ("B",)], [(), ("B",)]]
+        if tier == "thorough":
+            out += [[("B", "B"), ("1", "B")], [("1", "B"), ("B", "1")],
+                    [("B", "B"), ()], [(), ()]]
+        return out
+    return [[("B",)] * n_arrays, [("B",), ("1",), ("B", "B")][:n_arrays]]
+
+
+def adv_instances(tier, want_contiguous):
+    out = []
+    kinds = ["int", "s111", "arr"] if tier != "thorough" else \
+        ["int", "s111", "s000", "arr", "arrnn"]
+    for r in (1, 2, 3):
+        for combo in itertools.product(kinds, repeat=r):
+            narr = sum(1 for c in combo if c.startswith("arr"))
+            if narr == 0:
+                continue
+            adv = [i for i, c in enumerate(combo) if not c.startswith("s")]
+            contiguous = adv == list(range(adv[0], adv[-1] + 1))
+            if contiguous != want_contiguous:
+                continue
+            if tier != "thorough" and sum(
+                    1 for c in combo if c.startswith("s")) > 1:
+                continue    # two slices + arrays: thorough tier only
+            for pats in adv_patterns(narr, tier):
+                lab = "idx=" + "/".join(combo) + ";arrs=" + "|".join(
+                    "".join(p) or "0d" for p in pats)
+                out.append(dict(label=lab, kinds=list(combo),
+                                pats=[list(p) for p in pats]))
+    return out
+
+
+def run_adv(self, h, inst, cls, prefix):
+    from pytato.tags import AssumeNonNegative
+    kinds, pats = inst["kinds"], inst["pats"]
+    r = len(kinds)
+    install_slice_contracts(h)
+    a = mk_placeholder(h, "a", r)
+    m = max((len(p) for p in pats), default=0)
+    B = [h.nonneg(f"B{d}") for d in range(m)]
+    idx, descr, arrs = [], [], []
+    for d, kd in enumerate(kinds):
+        if kd.startswith("arr"):
+            pat = pats[len(arrs)]
+            off = m - len(pat)
+            shp = [B[off + t] if c == "B" else 1 for t, c in enumerate(pat)]
+            x = mk_placeholder(h, f"x{d}", shape=shp, dtype=np.int64)
+            if kd == "arrnn":
+                x = x.tagged(AssumeNonNegative())
+            arrs.append((d, x, pat))
+            idx.append(x)
+            descr.append(("arr", x, pat, kd == "arrnn"))
+        else:
+            (i1,), (d1,) = build_index_one(h, d, kd)
+            idx.append(i1)
+            descr.append(d1)
+    try:
+        node = h.interp.subscript(a, tuple(idx))
+    except EngineSignal:
+        raise
+    except (IndexError, ValueError):
+        return
+    except Exception as e:  # noqa: BLE001
+        h.fail(f"{prefix}.constructor-exception", f"{type(e).__name__}: {e}",
+               props=("C03",))
+        return
+    if not isinstance(node, cls):
+        h.fail(f"{prefix}.kind", f"expected {cls.__name__}, got "
+               f"{type(node).__name__}", props=("C02", "C03"))
+        return
+    node = decorate(node)
+    arrays = ArrayModel()
+    ns = [shape_term(x) for x in a.shape]
+    # broadcast shape of the index arrays (NumPy): per right-aligned position
+    bshape = []
+    for t in range(m):
+        uses = [p[t - (m - len(p))] for p in pats if t - (m - len(p)) >= 0]
+        bshape.append(shape_term(B[t]) if "B" in uses else z3.IntVal(1))
+    adv_pos = [p for p, dsc in enumerate(descr) if dsc[0] != "slice"]
+    contiguous = adv_pos == list(range(adv_pos[0], adv_pos[-1] + 1))
+    slice_specs = {p: axis_spec(descr[p], ns[p]) for p in range(r)
+                   if descr[p][0] == "slice"}
+    pre = [p for p in slice_specs if p < adv_pos[0]]
+    post = [p for p in slice_specs if p > adv_pos[-1]]
+    if contiguous:
+        out_axes = [("s", p) for p in pre] + [("b", t) for t in range(m)] + \
+            [("s", p) for p in post]
+    else:
+        out_axes = [("b", t) for t in range(m)] + \
+            [("s", p) for p in sorted(slice_specs)]
+    spec_shape = [slice_specs[x][3] if k == "s" else bshape[x]
+                  for k, x in out_axes]
+    for p, dsc in enumerate(descr):
+        if dsc[0] == "int":
+            k = z_of(dsc[1])
+            h.oblige(f"{prefix}.accepted-int-in-range[{p}]",
+                     z3.And(k >= -ns[p], k < ns[p]), props=("C03", "C02"))
+    il = lower(h, node, prefix)
+    if il is None:
+        return
+    pos_of = {ax: o for o, ax in enumerate(out_axes)}
+
+    def entry(iv, p):
+        _, x, pat, _nn = descr[p]
+        off = m - len(pat)
+        bidx = [iv[pos_of[("b", off + t)]] if c == "B" else z3.IntVal(0)
+                for t, c in enumerate(pat)]
+        return A(arrays, x, bidx)
+
+    def premise(iv):
+        cs = []
+        for p in adv_pos:
+            if descr[p][0] == "arr":
+                v = entry(iv, p)
+                lo = z3.IntVal(0) if descr[p][3] else -ns[p]
+                cs.append(z3.And(lo <= v, v < ns[p]))
+        return z3.And(cs)
+
+    swap = h.canary == "swap-first-two-out-axes" and len(out_axes) >= 2
+
+    def spec(iv):
+        if swap:
+            iv = [iv[1], iv[0], *iv[2:]]
+        j = []
+        for p in range(r):
+            dsc = descr[p]
+            if dsc[0] == "int":
+                k = z_of(dsc[1])
+                j.append(k + z3.If(k < 0, ns[p], z3.IntVal(0)))
+            elif dsc[0] == "slice":
+                sp = slice_specs[p]
+                j.append(sp[1] + sp[2] * iv[pos_of[("s", p)]])
+            else:
+                v = entry(iv, p)
+                j.append(v + z3.If(v < 0, ns[p], z3.IntVal(0)))
+        return A(arrays, a, j)
+
+    check_index_lambda(h, il, node, spec, arrays, clause_prefix=prefix,
+                       spec_shape=spec_shape, premise=premise)
+
+
+def build_index_one(h, d, kd):
+    if kd == "int":
+        k = h.int(f"k{d}")
+        return (k,), (("int", k),)
+    pat = [int(c) for c in kd[1:]]
+    start, stop, step = _sym_slice(h, pat, prefix=f"s{d}")
+    return (slice(start, stop, step),), (("slice", (start, stop, step)),)
+
+
+ADV_REPLAY = """
+from pyvc.replaylib import reproduced
+kinds = {kinds!r}
+pats = {pats!r}
+r = len(kinds)
+shape = tuple(max(1, mint(M, f"a_n{{d}}", 3)) for d in range(r))
+m = max((len(p) for p in pats), default=0)
+B = [max(0, mint(M, f"B{{d}}", 2)) for d in range(m)]
+a = pt.make_placeholder("a", shape, np.float64)
+data = {{"a": rnd(shape)}}
+idx_pt, idx_np, na = [], [], 0
+rng = np.random.default_rng(5)
+for d, kd in enumerate(kinds):
+    if kd.startswith("arr"):
+        pat = pats[na]; na += 1
+        off = m - len(pat)
+        shp = tuple(B[off + t] if c == "B" else 1 for t, c in enumerate(pat))
+        lo = 0 if kd == "arrnn" else -shape[d]
+        vals = rng.integers(lo, shape[d], size=shp)
+        x = pt.make_placeholder(f"x{{d}}", shp, np.int64)
+        if kd == "arrnn":
+            from pytato.tags import AssumeNonNegative
+            x = x.tagged(AssumeNonNegative())
+        data[f"x{{d}}"] = vals
+        idx_pt.append(x); idx_np.append(vals)
+    elif kd == "int":
+        k = mint(M, f"k{{d}}", 0); idx_pt.append(k); idx_np.append(k)
+    else:
+        pat = [int(c) for c in kd[1:]]
+        sl = slice(mint(M, f"s{{d}}_start", 0) if pat[0] else None,
+                   mint(M, f"s{{d}}_stop", 0) if pat[1] else None,
+                   mint(M, f"s{{d}}_step", 1) if pat[2] else None)
+        idx_pt.append(sl); idx_np.append(sl)
+try:
+    expect = data["a"][tuple(idx_np)]
+except (IndexError, ValueError) as e:
+    expect = e
+try:
+    node = a[tuple(idx_pt)]
+except (IndexError, ValueError) as e:
+    node = e
+if isinstance(expect, Exception):
+    if not isinstance(node, Exception):
+        reproduced(f"numpy rejects ({{expect}}), pytato accepts")
+    print("not reproduced: both reject"); sys.exit(0)
+if isinstance(node, Exception):
+    print("not reproduced: pytato over-rejects (allowed)", node); sys.exit(0)
+compare(node, data, expect)
+"""
+
+
+@contract
+class LowerContiguousAdvancedIndex(Contract):
+    name = "lower.contiguous_advanced_index"
+    functions = (f"{LOWER}:ToIndexLambdaMixin.map_contiguous_advanced_index",
+                 "pytato.utils:_index_into",
+                 "pytato.array:AdvancedIndexInContiguousAxes.shape",
+                 "pytato.utils:get_indexing_expression",
+                 "pytato.utils:get_shape_after_broadcasting",
+                 "pytato.utils:partition")
+    properties = ("C02", "C11", "C01", "C03")
+    max_paths = 6000
+
+    def instances(self, tier):
+        return adv_instances(tier, True)
+
+    def canaries(self, tier):
+        return [(dict(label="idx=s111/arr;arrs=B", kinds=["s111", "arr"],
+                      pats=[["B"]]), "swap-first-two-out-axes",
+                 "lower.contiguous_advanced_index.value"),
+                (dict(label="idx=s111/arr;arrs=B", kinds=["s111", "arr"],
+                      pats=[["B"]]), "tight-bounds",
+                 "lower.contiguous_advanced_index.in-bounds", ("C11",))]
+
+    def run(self, h, inst):
+        run_adv(self, h, inst, AdvancedIndexInContiguousAxes,
+                "lower.contiguous_advanced_index")
+
+    def replay(self, inst, clause, model, info):
+        return REPLAY_HEADER + ADV_REPLAY.format(kinds=inst["kinds"],
+                                                 pats=inst["pats"])
+
+
+@contract
+class LowerNonContiguousAdvancedIndex(Contract):
+    name = "lower.non_contiguous_advanced_index"
+    functions = (
+        f"{LOWER}:ToIndexLambdaMixin.map_non_contiguous_advanced_index",
+        "pytato.utils:_index_into",
+        "pytato.array:AdvancedIndexInNoncontiguousAxes.shape")
+    properties = ("C02", "C11", "C01", "C03")
+    max_paths = 6000
+
+    def instances(self, tier):
+        return adv_instances(tier, False)
+
+    def canaries(self, tier):
+        return [(dict(label="idx=arr/s111/arr;arrs=B|B",
+                      kinds=["arr", "s111", "arr"], pats=[["B"], ["B"]]),
+                 "swap-first-two-out-axes",
+                 "lower.non_contiguous_advanced_index.value"),
+                (dict(label="idx=arr/s111/arr;arrs=B|B",
+                      kinds=["arr", "s111", "arr"], pats=[["B"], ["B"]]), "tight-bounds",
+                 "lower.non_contiguous_advanced_index.in-bounds", ("C11",))]
+
+    def run(self, h, inst):
+        run_adv(self, h, inst, AdvancedIndexInNoncontiguousAxes,
+                "lower.non_contiguous_advanced_index")
+
+    def replay(self, inst, clause, model, info):
+        return REPLAY_HEADER + ADV_REPLAY.format(kinds=inst["kinds"],
+                                                 pats=inst["pats"])
+
+# }}}
+
+
+# {{{ reshape
+
+def _shapes(max_rank, max_len):
+    for r in range(max_rank + 1):
+        yield from itertools.product(range(max_len + 1), repeat=r)
+
+
+def reshape_pairs(max_rank, max_len):
+    by_size = {}
+    for s in _shapes(max_rank, max_len):
+        by_size.setdefault(int(np.prod(s, dtype=np.int64)) if s else 1,
+                           []).append(s)
+    for _size, lst in sorted(by_size.items()):
+        for old in lst:
+            for new in lst:
+                yield old, new
+
+
+@contract
+class LowerReshape(Contract):
+    name = "lower.reshape"
+    functions = (f"{LOWER}:ToIndexLambdaMixin.map_reshape",
+                 f"{LOWER}:_get_reshaped_indices",
+                 f"{LOWER}:_generate_index_expressions",
+                 "pytato.array:reshape", "pytato.array:Reshape.shape")
+    properties = ("C02", "C11", "C01")
+    notes = ("bounded in shape: every (old, new) pair of concrete shapes in "
+             "the stated range, both orders; indices symbolic",)
+
+    def instances(self, tier):
+        # one task = one old shape (all matching new shapes, both orders)
+        mr, ml = (3, 3) if tier != "thorough" else (4, 4)
+        groups = {}
+        for old, new in reshape_pairs(mr, ml):
+            groups.setdefault(old, []).append(new)
+        out = []
+        for old, news in groups.items():
+            # the size-0 class is large and uniform: cap it in quick
+            if tier != "thorough" and 0 in old and len(news) > 12:
+                news = news[::max(1, len(news) // 12)]
+            out.append(dict(label=f"old={list(old)}", old=list(old),
+                            news=[list(n) for n in news]))
+        return out
+
+    def canaries(self, tier):
+        return [(dict(label="old=[2, 3]", old=[2, 3], news=[[3, 2]]),
+                 "wrong-order", "lower.reshape["),
+                (dict(label="old=[2, 3]", old=[2, 3], news=[[3, 2]]), "tight-bounds",
+                 "lower.reshape[", ("C11",))]
+
+    def run(self, h, inst):
+        old = tuple(inst["old"])
+        for new in inst["news"]:
+            for order in ("C", "F"):
+                self.one(h, old, tuple(new), order)
+
+    def one(self, h, old, new, order):
+        a = mk_placeholder(h, "a", shape=old)
+        node = h.call(pt.reshape, a, new, order)
+        if not isinstance(node, Reshape):
+            h.fail("lower.reshape.kind", type(node).__name__)
+            return
+        node = decorate(node)
+        arrays = ArrayModel()
+        prefix = f"lower.reshape[{list(old)}->{list(new)},{order}]"
+        il = lower(h, node, prefix)
+        if il is None:
+            return
+        sorder = order
+        if h.canary == "wrong-order":
+            sorder = "F" if order == "C" else "C"
+
+        def strides(shape):
+            st = [1] * len(shape)
+            if sorder == "C":
+                for d in range(len(shape) - 2, -1, -1):
+                    st[d] = st[d + 1] * shape[d + 1]
+            else:
+                for d in range(1, len(shape)):
+                    st[d] = st[d - 1] * shape[d - 1]
+            return st
+
+        def spec(iv):
+            ns, os_ = strides(new), strides(old)
+            lin = z3.Sum([iv[d] * ns[d] for d in range(len(new))]) \
+                if new else z3.IntVal(0)
+            j = [(lin / os_[e]) % old[e] if old[e] > 0 else z3.IntVal(0)
+                 for e in range(len(old))]
+            return A(arrays, a, j)
+
+        check_index_lambda(h, il, node, spec, arrays, clause_prefix=prefix,
+                           spec_shape=list(new))
+
+    def replay(self, inst, clause, model, info):
+        import re
+        m = re.search(r"\[(\[.*?\])->(\[.*?\]),([CF])\]", clause)
+        if not m:
+            return None
+        return REPLAY_HEADER + f"""
+old, new, order = tuple({m.group(1)}), tuple({m.group(2)}), {m.group(3)!r}
+a = pt.make_placeholder("a", old, np.float64)
+data = {{"a": rnd(old)}}
+node = pt.reshape(a, new, order)
+compare(node, data, np.reshape(data["a"], new, order=order))
+"""
+
+# }}}
+
+
+# {{{ einsum
+
+def einsum_specs(tier):
+    letters = "ij" if tier != "thorough" else "ijk"
+    maxrank = 2 if tier != "thorough" else 3
+    ops = [""]
+    for r in range(1, maxrank + 1):
+        ops += ["".join(p) for p in itertools.product(letters, repeat=r)]
+    out = []
+    for k in (1, 2):
+        for combo in itertools.product(ops, repeat=k):
+            if tier == "thorough" and k == 2 and \
+                    len(combo[0]) + len(combo[1]) > 4:
+                continue
+            used = sorted(set("".join(combo)))
+            for m in range(len(used) + 1):
+                for o in itertools.permutations(used, m):
+                    out.append((list(combo), "".join(o)))
+    for s in ["im,mj,km->ijk", "ij,j,j->i", "i,i,i->", "ij,jk,kl->il",
+              "ij,ij,ij->ji", "i,j,k->kji"]:
+        ins, o = s.split("->")
+        out.append((ins.split(","), o))
+    return out
+
+
+@contract
+class LowerEinsum(Contract):
+    name = "lower.einsum"
+    functions = (f"{LOWER}:ToIndexLambdaMixin.map_einsum",
+                 "pytato.array:einsum",
+                 "pytato.array:_normalize_einsum_out_subscript",
+                 "pytato.array:_normalize_einsum_in_subscript",
+                 "pytato.array:_get_einsum_access_descr_to_axis_len",
+                 "pytato.array:Einsum.shape",
+                 "pytato.utils:are_shape_components_equal")
+    properties = ("C02", "C11", "C01")
+
+    def instances(self, tier):
+        out = []
+        for ins, o in einsum_specs(tier):
+            lab = ",".join(ins) + "->" + o
+            out.append(dict(label=lab, ins=ins, out=o, unit=[]))
+            # broadcast-unit variants: one operand axis is literally 1 while
+            # the same letter occurs elsewhere
+            if len(ins) >= 2:
+                for k, sp in enumerate(ins):
+                    for ax, ch in enumerate(sp):
+                        elsewhere = sum(s.count(ch) for s in ins) - 1
+                        if elsewhere >= 1 and (tier == "thorough"
+                                               or (k, ax) == (0, 0)):
+                            out.append(dict(label=lab + f";unit={k}.{ax}",
+                                            ins=ins, out=o, unit=[[k, ax]]))
+        return out
+
+    def canaries(self, tier):
+        return [(dict(label="ij,j->i", ins=["ij", "j"], out="i", unit=[]),
+                 "transposed-operand", "lower.einsum.value"),
+                (dict(label="ij,j->i", ins=["ij", "j"], out="i", unit=[]), "tight-bounds",
+                 "lower.einsum.in-bounds", ("C11",))]
+
+    def run(self, h, inst):
+        from pytato.reductions import SumReductionOperation
+        ins, o, unit = inst["ins"], inst["out"], {tuple(u) for u in inst["unit"]}
+        letters = sorted(set("".join(ins)))
+        n = {ch: h.nonneg(f"n_{ch}") for ch in letters}
+        ops = []
+        for k, sp in enumerate(ins):
+            shp = [1 if (k, ax) in unit else n[ch] for ax, ch in enumerate(sp)]
+            ops.append(mk_placeholder(h, f"a{k}", shape=shp))
+        try:
+            node = h.call(pt.einsum, ",".join(ins) + "->" + o, *ops)
+        except EngineSignal:
+            raise
+        except Exception as e:  # noqa: BLE001
+            h.fail("lower.einsum.constructor-exception",
+                   f"{type(e).__name__}: {e}", props=("C03", "C02"))
+            return
+        node = decorate(node)
+        arrays = ArrayModel()
+        il = lower(h, node, "lower.einsum")
+        if il is None:
+            return
+        # length of a letter: its non-literal-1 occurrences share n[ch]
+        def letter_len(ch):
+            occ = [(k, ax) for k, sp in enumerate(ins)
+                   for ax, c in enumerate(sp) if c == ch]
+            if all(x in unit for x in occ):
+                return z3.IntVal(1)
+            return shape_term(n[ch])
+
+        redn = [ch for ch in letters if ch not in o]
+
+        def spec(iv):
+            var = {ch: iv[o.index(ch)] for ch in o}
+            rvars = {ch: z3.Int(f"r_{ch}") for ch in redn}
+            var.update(rvars)
+            body = None
+            for k, sp in enumerate(ins):
+                idx = [z3.IntVal(0) if (k, ax) in unit else var[ch]
+                       for ax, ch in enumerate(sp)]
+                if h.canary == "transposed-operand" and len(idx) == 2:
+                    idx = idx[::-1]
+                t = A(arrays, ops[k], idx)
+                body = t if body is None else body * t
+            if not redn:
+                return body
+            return Reduction(SumReductionOperation(),
+                             [(ch, z3.IntVal(0), letter_len(ch))
+                              for ch in redn], body, rvars)
+
+        check_index_lambda(h, il, node, spec, arrays,
+                           clause_prefix="lower.einsum",
+                           spec_shape=[letter_len(ch) for ch in o])
+
+    def replay(self, inst, clause, model, info):
+        return REPLAY_HEADER + f"""
+ins, o, unit = {inst['ins']!r}, {inst['out']!r}, {{tuple(u) for u in {inst['unit']!r}}}
+n = {{ch: max(0, mint(M, f"n_{{ch}}", 2)) for ch in set("".join(ins))}}
+ops, data, vals = [], {{}}, []
+for k, sp in enumerate(ins):
+    shp = tuple(1 if (k, ax) in unit else n[ch] for ax, ch in enumerate(sp))
+    ops.append(pt.make_placeholder(f"a{{k}}", shp, np.float64))
+    data[f"a{{k}}"] = rnd(shp, seed=k)
+    vals.append(data[f"a{{k}}"])
+spec = ",".join(ins) + "->" + o
+node = pt.einsum(spec, *ops)
+compare(node, data, np.einsum(spec, *vals), exact=False)
+"""
+
+# }}}
+
+
+# {{{ CSR matmul
+
+@contract
+class LowerCSRMatmul(Contract):
+    name = "lower.csr_matmul"
+    functions = (f"{LOWER}:ToIndexLambdaMixin.map_csr_matmul",
+                 "pytato.array:sparse_matmul", "pytato.array:make_csr_matrix",
+                 "pytato.array:SparseMatmul._get_shape")
+    properties = ("C02", "C11", "C01")
+
+    def instances(self, tier):
+        return [dict(label=f"dense-rank={r}", rank=r) for r in ranks(tier, 1)]
+
+    def canaries(self, tier):
+        return [(dict(label="dense-rank=2", rank=2), "row-bound-off-by-one",
+                 "lower.csr_matmul.value"),
+                (dict(label="dense-rank=2", rank=2), "tight-bounds",
+                 "lower.csr_matmul.in-bounds", ("C11",))]
+
+    def run(self, h, inst):
+        from pytato.reductions import SumReductionOperation
+        r = inst["rank"]
+        nrows, ncols, nnz = h.nonneg("nrows"), h.nonneg("ncols"), \
+            h.nonneg("nnz")
+        rest = [h.nonneg(f"m{d}") for d in range(r - 1)]
+        vals = mk_placeholder(h, "vals", shape=[nnz])
+        cols = mk_placeholder(h, "cols", shape=[nnz], dtype=np.int32)
+        rs = mk_placeholder(h, "rs", shape=[nrows + 1], dtype=np.int32)
+        x = mk_placeholder(h, "x", shape=[ncols, *rest])
+        try:
+            mat = h.call(pt.make_csr_matrix, (nrows, ncols), vals, cols, rs)
+            node = h.call(pt.sparse_matmul, mat, x)
+        except EngineSignal:
+            raise
+        except Exception as e:  # noqa: BLE001
+            h.fail("lower.csr_matmul.constructor-exception",
+                   f"{type(e).__name__}: {e}", props=("C03", "C02"))
+            return
+        node = decorate(node)
+        arrays = ArrayModel()
+        il = lower(h, node, "lower.csr_matmul")
+        if il is None:
+            return
+        off = 1 if h.canary == "row-bound-off-by-one" else 0
+
+        def spec(iv):
+            rv = z3.Int("r_row")
+            body = A(arrays, vals, [rv]) * A(
+                arrays, x, [A(arrays, cols, [rv]), *iv[1:]])
+            return Reduction(SumReductionOperation(),
+                             [("r", A(arrays, rs, [iv[0]]),
+                               A(arrays, rs, [iv[0] + 1]) + off)],
+                             body, {"r": rv})
+
+        check_index_lambda(
+            h, il, node, spec, arrays, clause_prefix="lower.csr_matmul",
+            spec_shape=[shape_term(nrows), *[shape_term(m) for m in rest]])
+
+    def replay(self, inst, clause, model, info):
+        return REPLAY_HEADER + f"""
+import scipy.sparse as sp
+r = {inst['rank']}
+nrows, ncols = max(1, mint(M, "nrows", 3)), max(1, mint(M, "ncols", 4))
+rest = tuple(max(0, mint(M, f"m{{d}}", 2)) for d in range(r - 1))
+dense = (np.arange(nrows * ncols).reshape(nrows, ncols) % 3 == 0) * \\
+    rnd((nrows, ncols))
+m = sp.csr_matrix(dense)
+vals = pt.make_placeholder("vals", m.data.shape, np.float64)
+cols = pt.make_placeholder("cols", m.indices.shape, np.int32)
+rs = pt.make_placeholder("rs", m.indptr.shape, np.int32)
+x = pt.make_placeholder("x", (ncols, *rest), np.float64)
+data = dict(vals=m.data, cols=m.indices, rs=m.indptr, x=rnd((ncols, *rest), seed=3))
+node = pt.sparse_matmul(pt.make_csr_matrix((nrows, ncols), vals, cols, rs), x)
+compare(node, data, np.tensordot(dense, data["x"], axes=(1, 0)), exact=False)
+"""
+
+# }}}
